@@ -390,7 +390,8 @@ def one_case(ctx, s, shapes, losses, mode, retry, lifetime, mbf, stratum, style=
             'packets': {('discovery' if k is None else f'segment {k}'): w[1] for k, w in wires.items() if w is not None},
             'must': {('discovery' if k is None else f'segment {k}'): v for k, v in verdict.items()},
             'losses before the answer': {('discovery' if k is None else f'segment {k}'): v for k, v in losses.items() if v},
-            'retry_times': retry, 'timeout': lifetime, 'must_be_fresh': mbf}
+            'retry_times': retry, 'timeout': lifetime, 'must_be_fresh': mbf,
+            'input': {'shapes': [[k, v] for k, v in shapes.items()], 'losses': [[k, v] for k, v in losses.items()], 'meta_style': style}}
     events, ending, errors, pending, face, setup_error = run_signed(s, wires, losses, mode, kw)
     if setup_error is not None:
         ctx.disagree(SITE, f'the shipped validator of mode {mode!r} cannot be constructed: {type(setup_error).__name__}: {setup_error}',
@@ -553,3 +554,13 @@ def stream_f(ctx):
         losses = {k: rng.choice([1, att - 1, att, att + 1]) for k in keys if rng.random() < 0.2}
         one_case(ctx, s, shapes, losses, mode, retry, rng.choice([100, 500, 4000]), rng.choice([True, False]), 'F.signed-sampled',
                  style=rng.randrange(3))
+
+
+def replay(ctx, case):
+    """Re-run ONE case of stream F from the case stored in a replay file."""
+    o = dict(case['object'])
+    o['disc'] = tuple(o['disc'])
+    o['fates'] = {}
+    inp = case['input']
+    one_case(ctx, o, {k: v for k, v in inp['shapes']}, {k: v for k, v in inp['losses']}, case['validator in force'],
+             case['retry_times'], case['timeout'], bool(case['must_be_fresh']), 'F.replay', style=inp['meta_style'])
